@@ -588,7 +588,7 @@ O_CONSUMERS = [
     ("if-noelse", ("int",), "int res = 5; if ({v}) {{ res = 1; }}", "res", "int"),
     ("if-directly-after-store", ("int", "float"), "if ({v}) {{ x = x + 1.0; }}", "x", "float"),
     ("if-else-directly-after-store", ("int",), "if ({v}) {{ x = x + 1.0; }} else {{ x = x - 1.0; }}", "x", "float"),
-    ("while-directly-after-store", ("int",), "while ({v}) {{ {v} = {v} - 1; x = x + 1.0; }}", "x", "float"),
+    ("while-directly-after-store", ("int",), "while ({v} > 0) {{ {v} = {v} - 1; x = x + 1.0; }}", "x", "float"),
     ("store", ("int", "float", "float4", "float3x3"), "{T} res = {v};", "res", None),
     ("assign", ("int", "float", "float4", "float3x3"), "{T} res; res = {v};", "res", None),
     ("compound", ("int", "float"), "{v} += 3;", "{v}", None),
